@@ -277,16 +277,19 @@ fn conv_job(conv: Conv, len: usize) -> Job {
 /// status follows the *source*. A cold source pushes its terminal also to an
 /// observer whose downstream has finished; the status must record it
 /// ("reports completed or error exactly when the source has terminated").
-fn status_cut_job(src: crate::ast::Src, cut: usize) -> Job {
+fn status_cut_job(src: crate::ast::Src, op: Option<crate::ast::Op1>, cut: usize) -> Job {
   use crate::ast::*;
   use crate::drive::*;
-  let pipe = Pipe::S(src.clone());
+  let pipe = match op {
+    Some(op) => Pipe::S(src.clone()).o1(op),
+    None => Pipe::S(src.clone()),
+  };
   Job::new(format!("{}.complete_status().take({cut})", pipe.show()), move |_ch, obs| {
     let r = Run::prepare(1, Form::Local);
     let (o, st) = build_local(&pipe, &r.cx).complete_status();
     let _u = o.take(cut).actual_subscribe(r.probe.clone());
     obs.checks += 1;
-    if let Some(exp) = crate::model::src(&src) {
+    if let Some(exp) = crate::model::chain(&pipe, &Seq::open()) {
       let (closed, completed, failed) = (st.is_closed(), st.is_completed(), st.error_occur());
       let want = match exp.t {
         T::C => (true, true, false),
@@ -336,7 +339,12 @@ pub fn plan(tier: Tier) -> Plan {
       Src::CreatePolling(3),
     ] {
       for cut in [0usize, 1, 2] {
-        jobs.push(status_cut_job(src.clone(), cut));
+        jobs.push(status_cut_job(src.clone(), None, cut));
+        // ... and with every catalogue stage between the source and the status:
+        // a stage hands the terminal on whether or not downstream has finished
+        for op in crate::catalogue::list_ops(false) {
+          jobs.push(status_cut_job(src.clone(), Some(op), cut));
+        }
       }
     }
   }
@@ -346,7 +354,7 @@ pub fn plan(tier: Tier) -> Plan {
       prop: "C14".into(),
       tier: tier_name(tier),
       engine: "E1 opseq".into(),
-      rule: "to_future(), collect().to_future(), to_stream(), complete_status() over a hot source: every sequence up to the length bound over {next(0), next(1), complete, error, poll} (polls before, between and after the source events, events after the terminal included) with a counting waker; oracle at every poll: documented result, Pending only while the source is open, Ready once it has terminated (stream: all items, the error, then None), a registered waker is woken by the terminal, status flags flip exactly at the terminal and wait_for_end returns; complete_status() over cold sources with take(0|1|2) below it: the status follows the source's terminal although downstream has finished; non-trivial = the source emitted something".into(),
+      rule: "to_future(), collect().to_future(), to_stream(), complete_status() over a hot source: every sequence up to the length bound over {next(0), next(1), complete, error, poll} (polls before, between and after the source events, events after the terminal included) with a counting waker; oracle at every poll: documented result, Pending only while the source is open, Ready once it has terminated (stream: all items, the error, then None), a registered waker is woken by the terminal, status flags flip exactly at the terminal and wait_for_end returns; complete_status() over cold sources, alone and under every catalogue stage with a list model, with take(0|1|2) below it: the status follows the terminal of what it observes although downstream has finished; non-trivial = the source emitted something".into(),
       bounds: json!({"sequence_len": len}),
       assumptions: vec!["to_future on `item(s) then error`: Ok(Err(e)) or Err(MultipleValues) are both accepted".into()],
     },
